@@ -9,17 +9,25 @@ import os
 
 ROOT = os.path.dirname(os.path.dirname(os.path.abspath(__file__)))
 
-# per property: (technique, level text, level note, design ref)
-CLAIMS = {
-    "C15": (
-        "Hypothesis property-based testing against a brute-force minimum-image oracle plus metric-law and metamorphic relations",
-        "Generated-input exploration: thousands of point sets per run (1-6 dimensions, anisotropic cells, coordinates up to 1e4 cells "
-        "away, exact half-cell ties, integer image shifts, SPD precision stacks) are judged against an independent fractional-reduction "
-        "oracle and the metric laws (symmetry, triangle inequality over all triples, bounds, squared flag, sklearn equality, rejection "
-        "of a mismatched cell).  No absence claim; strength = number of distinct non-trivial cases in the evidence.",
-        "Trusts numpy arithmetic and sklearn's euclidean_distances (the property names it as the reference); tolerance 1e-11*(max|coord|+|cell|).",
-        "DESIGN.md section 4, C15"),
-}
+import ast
+
+
+def module_meta(pid):
+    """TECHNIQUE / LEVEL / ASSUMPTIONS literals of vf/props/<pid>.py, read without importing."""
+    path = os.path.join(ROOT, "vf", "props", pid.lower() + ".py")
+    if not os.path.exists(path):
+        return None
+    out = {}
+    for node in ast.parse(open(path).read()).body:
+        if isinstance(node, ast.Assign) and len(node.targets) == 1 and isinstance(node.targets[0], ast.Name):
+            nm = node.targets[0].id
+            if nm in ("TECHNIQUE", "LEVEL", "ASSUMPTIONS", "TITLE"):
+                try:
+                    out[nm] = ast.literal_eval(node.value)
+                except ValueError:
+                    pass
+    return out if "TECHNIQUE" in out and "LEVEL" in out else None
+
 
 PENDING_REASON = ("check not built yet in this session - the property is decidable by generated-input search "
                   "(design in DESIGN.md section 4) and will be claimed once its module exists")
@@ -30,9 +38,11 @@ def main():
     checks, na = [], []
     for p in props:
         pid = p["id"]
-        have = os.path.exists(os.path.join(ROOT, "vf", "props", pid.lower() + ".py"))
-        if have and pid in CLAIMS:
-            tech, text, note, ref = CLAIMS[pid]
+        meta = module_meta(pid)
+        if meta is not None:
+            tech, text = meta["TECHNIQUE"], meta["LEVEL"]
+            note = "Trusted base: numpy/scipy/scikit-learn reference routines used by the oracle. " + "; ".join(meta.get("ASSUMPTIONS", []))
+            ref = "DESIGN.md section 4, " + pid
             checks.append({
                 "property_id": pid,
                 "quick_cmd": "./check %s --tier quick" % pid,
